@@ -155,6 +155,12 @@ class Patch(dict[str, Any]):
             case None:
                 dicts.remove(cast(dict[Any, Any], body), path)
             case collections.abc.Mapping():
+                # As in the merge-patch (RFC 7386): a mapping over a non-mapping value (a scalar,
+                # a list, a null) replaces that value as a whole instead of merging into it.
+                absent = object()
+                target = dicts.resolve(body, path, absent) if path else body
+                if target is not absent and not isinstance(target, collections.abc.Mapping):
+                    dicts.ensure(cast(dict[Any, Any], body), path, {})
                 for key, val in value.items():
                     self._apply_patch(body, path + (key,), val)
             case _:
